@@ -95,3 +95,38 @@ package cdata
 //@   ensures [C03.root-lens] len(r.Step) == len(dims) && len(r.Offset) == len(dims) && len(r.OffsetStep) == len(dims)
 //@   ensures [C03.root-steps] forall(k, 0, len(dims), r.Step[k] == 1 && r.OffsetStep[k] == r.Offset[k])
 //@   ensures [C03.root-offsets] r.Offset[len(dims)-1] == 1 && forall(k, 0, len(dims)-1, r.Offset[k] == r.Offset[k+1]*dims[k+1])
+
+// ---- bulk operations of the C back-end against the same row-major definitions as the Go back-end (C02, C03) ----
+
+//@ func (*nd{t}C).Unroll(nd) returns (r)
+//@   safety C03
+//@   uses C02.lemma-iprod-positive, C02.lemma-idot-rm
+//@   requires len(nd.Dims) >= 1 && len(nd.OffsetStep) == len(nd.Dims)
+//@   requires forall(k, 0, len(nd.Dims), nd.Dims[k] >= 1)
+//@   requires forall(j, 0, iprod(nd.Dims, len(nd.Dims)), 0 <= nd.Start + rmaddr(nd.Dims, nd.OffsetStep, j, len(nd.Dims), len(nd.Dims)) && nd.Start + rmaddr(nd.Dims, nd.OffsetStep, j, len(nd.Dims), len(nd.Dims)) < nd.Impl.buflen)
+//@   assigns nothing
+//@   fresh r
+//@   ensures [C03.unroll-rowmajor,C02.unroll-rowmajor] len(r) == iprod(nd.Dims, len(nd.Dims)) && forall(j, 0, len(r), r[j] == nd.Impl[nd.Start + rmaddr(nd.Dims, nd.OffsetStep, j, len(nd.Dims), len(nd.Dims))])
+//@   loop 0 invariant 0 <= i && i <= length && length == iprod(nd.Dims, len(nd.Dims)) && len(res) == length && len(dimOffsets) == len(nd.Dims)
+//@   loop 0 invariant forall(k, 0, len(nd.Dims), dimOffsets[k] == pfrom(nd.Dims, k+1, len(nd.Dims)) && dimOffsets[k] >= 1)
+//@   loop 0 invariant forall(j, 0, i, res[j] == nd.Impl[nd.Start + rmaddr(nd.Dims, nd.OffsetStep, j, len(nd.Dims), len(nd.Dims))])
+//@   loop 0 invariant implies(i < length, 0 <= nd.Start + rmaddr(nd.Dims, nd.OffsetStep, i, len(nd.Dims), len(nd.Dims)) && nd.Start + rmaddr(nd.Dims, nd.OffsetStep, i, len(nd.Dims), len(nd.Dims)) < nd.Impl.buflen)
+
+//@ func (*nd{t}C).Apply(nd, loc, dim, step, vals)
+//@   safety C03
+//@   callsite Set instantiate C01.lemma-idot-upd(old(seq(loc)), seq(loc), seq(nd.OffsetStep), dim, len(loc))
+//@   uses C01.lemma-run-injective, C01.lemma-run-first
+//@   requires len(nd.Dims) == len(nd.OffsetStep) && len(loc) == len(nd.OffsetStep)
+//@   requires 0 <= dim && dim < len(nd.OffsetStep) && step >= 1 && nd.OffsetStep[dim] >= 1
+//@   requires loc.id != nd.OffsetStep.id && loc.id != nd.Dims.id && vals.id != loc.id && vals.id != nd.OffsetStep.id && vals.id != nd.Dims.id
+//@   requires nd.Impl.id != loc.id && nd.Impl.id != nd.OffsetStep.id && nd.Impl.id != nd.Dims.id && nd.Impl.id != vals.id
+//@   requires forall(j, 0, len(vals), 0 <= runaddr(nd.Start + idot(loc, nd.OffsetStep, len(loc)), j, step, nd.OffsetStep[dim]) && runaddr(nd.Start + idot(loc, nd.OffsetStep, len(loc)), j, step, nd.OffsetStep[dim]) < nd.Impl.buflen)
+//@   assigns nd.Impl[*], loc[*]
+//@   ensures [C03.apply-footprint] forall(j, 0, len(vals), nd.Impl[runaddr(old(nd.Start + idot(loc, nd.OffsetStep, len(loc))), j, step, nd.OffsetStep[dim])] == vals[j])
+//@   ensures [C03.apply-frame] forall(p, 0, nd.Impl.buflen, implies(!exists(j, 0, len(vals), p == runaddr(old(nd.Start + idot(loc, nd.OffsetStep, len(loc))), j, step, nd.OffsetStep[dim])), nd.Impl[p] == old(nd.Impl[p])))
+//@   ensures [C03.apply-loc-restored] forall(k, 0, len(loc), loc[k] == old(loc[k]))
+//@   loop 0 invariant -1 <= rangeindex && rangeindex < len(vals) && start == old(loc[dim])
+//@   loop 0 invariant forall(k, 0, len(loc), implies(k != dim, loc[k] == old(loc[k])))
+//@   loop 0 invariant implies(rangeindex + 1 < len(vals), 0 <= runaddr(old(nd.Start + idot(loc, nd.OffsetStep, len(loc))), rangeindex + 1, step, nd.OffsetStep[dim]) && runaddr(old(nd.Start + idot(loc, nd.OffsetStep, len(loc))), rangeindex + 1, step, nd.OffsetStep[dim]) < nd.Impl.buflen)
+//@   loop 0 invariant forall(j, 0, rangeindex + 1, nd.Impl[runaddr(old(nd.Start + idot(loc, nd.OffsetStep, len(loc))), j, step, nd.OffsetStep[dim])] == vals[j])
+//@   loop 0 invariant forall(p, 0, nd.Impl.buflen, implies(!exists(j, 0, rangeindex + 1, p == runaddr(old(nd.Start + idot(loc, nd.OffsetStep, len(loc))), j, step, nd.OffsetStep[dim])), nd.Impl[p] == old(nd.Impl[p])))
